@@ -30,6 +30,7 @@ type scn struct {
 	// ExtraHeaders: the server repeats the zero-row header block of an INSERT this many times (a
 	// server the fault-free client never finishes with: only used with cancellation)
 	ExtraHeaders int
+	NoExtName    bool // external data without a table name (the library supplies the default)
 }
 
 var scenarios = []scn{
@@ -40,6 +41,7 @@ var scenarios = []scn{
 	{Name: "select-lz4", Comp: ch.CompressionLZ4, Telemetry: true},
 	{Name: "insert-stream-zstd", Insert: true, Stream: 2, Comp: ch.CompressionZSTD},
 	{Name: "select-external", External: true},
+	{Name: "select-external-unnamed", External: true, NoExtName: true, Telemetry: true},
 	{Name: "insert-none", Insert: true, Comp: ch.CompressionNone},
 	{Name: "select-exception", EndsExc: true},
 	{Name: "insert-exception", Insert: true, Stream: 2, EndsExc: true},
@@ -333,7 +335,9 @@ func runScenarioWith(sc scn, seed int64, f *fault, readTimeout time.Duration, ba
 		ea := new(proto.ColUInt32)
 		ea.Append(7)
 		q.ExternalData = []proto.InputColumn{{Name: "x", Data: ea}}
-		q.ExternalTable = "ext"
+		if !sc.NoExtName {
+			q.ExternalTable = "ext"
+		}
 	}
 	q.OnProgress = func(ctx context.Context, p proto.Progress) error { return cb("progress") }
 	q.OnProfile = func(ctx context.Context, p proto.Profile) error { return cb("profile") }
